@@ -1,3 +1,5 @@
+import Orca.Gen.ApiOutline
+import Orca.Model.ApiOutlineSpec
 import Orca.Lemmas.SpecialFlat
 import Orca.Gen.ResolverOutline
 import Orca.Model.ResolverOutlineSpec
@@ -262,3 +264,23 @@ theorem c22_resolver_code_reviewed :
     Orca.Gen.Outline.resolve_special_instrumentation = Orca.Lower.Outline.resolve_special_instrumentation
     ∧ Orca.Gen.Outline.resolve_bodies = Orca.Lower.Outline.resolve_bodies :=
   ⟨rfl, rfl⟩
+
+/-- **The tie to the source (regenerated on every run).** Where an injection is accepted and marked (`FuncInstrFlag::add_instr` / `has_instr`, `InstrumentationFlag::add_instr`, the operator classes `is_block_style_op` / `is_branching_op`, `check_special_is_resolved`, `Instruction::empty_block_alt`, src/ir/types.rs), word for word. `c22_inject_marks`, `c22_function_level_marks`, `c22_empty_block_alt_marks` and `c22_reject_is_loud` are statements about M3's transcription of exactly these functions. -/
+theorem c22_marking_code_reviewed :
+    Orca.Gen.ApiOutline.func_flag_add_instr = Orca.ApiOutlineSpec.func_flag_add_instr
+    ∧ Orca.Gen.ApiOutline.func_flag_has_instr = Orca.ApiOutlineSpec.func_flag_has_instr
+    ∧ Orca.Gen.ApiOutline.flag_add_instr = Orca.ApiOutlineSpec.flag_add_instr
+    ∧ Orca.Gen.ApiOutline.flag_is_block_style_op = Orca.ApiOutlineSpec.flag_is_block_style_op
+    ∧ Orca.Gen.ApiOutline.flag_is_branching_op = Orca.ApiOutlineSpec.flag_is_branching_op
+    ∧ Orca.Gen.ApiOutline.flag_check_special_is_resolved = Orca.ApiOutlineSpec.flag_check_special_is_resolved
+    ∧ Orca.Gen.ApiOutline.instruction_empty_block_alt = Orca.ApiOutlineSpec.instruction_empty_block_alt :=
+  ⟨rfl, rfl, rfl, rfl, rfl, rfl, rfl⟩
+
+/-- **The tie to the source (regenerated on every run).** Selecting a function-level mode, emptying a block alternate and `LocalFunction::add_instr` (the place where a special mode marks its function for the resolver), word for word, for the function modifier and the module iterator. -/
+theorem c22_location_api_code_reviewed :
+    Orca.Gen.ApiOutline.modifier_set_func_instrument_mode = Orca.ApiOutlineSpec.modifier_set_func_instrument_mode
+    ∧ Orca.Gen.ApiOutline.modifier_empty_block_alt_at = Orca.ApiOutlineSpec.modifier_empty_block_alt_at
+    ∧ Orca.Gen.ApiOutline.moditer_set_func_instrument_mode = Orca.ApiOutlineSpec.moditer_set_func_instrument_mode
+    ∧ Orca.Gen.ApiOutline.moditer_empty_block_alt_at = Orca.ApiOutlineSpec.moditer_empty_block_alt_at
+    ∧ Orca.Gen.ApiOutline.localfn_add_instr = Orca.ApiOutlineSpec.localfn_add_instr :=
+  ⟨rfl, rfl, rfl, rfl, rfl⟩
